@@ -8,6 +8,7 @@ from conda_content_trust import authentication as A, common as C, signing as S
 from props import C07
 from vlib import gen_envelope as GE, gen_json as G, keys, ref_ed25519, ref_verify as RV
 from vlib.ref_canon import canon, jeq, same_order
+from vlib import cfgunit as _cfgunit
 from vlib.runner import Unit, Violation
 
 PROPERTY = "C09"
@@ -195,4 +196,5 @@ UNITS = [
     Unit("roundtrip", check_case, strategy=_cases, quick=800, thorough=24000,
          essential=["strict-edit", "neutral-edit", "signers=2", "stale=1"],
          doc="wrap, sign (any order, repeats), full differential against RFC 8032 reference, thresholds, edits"),
+    _cfgunit.unit_under_config(PROPERTY, 'roundtrip', exclude=()),
 ]
